@@ -15,6 +15,18 @@ CLAIMED = {
         note="Trusted: rustc MIR, Vec/HashMap/Iterator::rev semantics. An Err exit counts as an ordinary exit because failed elements are retried.",
         technique="static analysis: MIR typestate pairing (push_element/pop_element incl. inspect_err idiom), who-may-write on context fields, CFG ordering (no set_var -> eval_attr path)",
     ),
+    "C06": dict(
+        text="Decides the absence of order- and environment-dependent constructs: every iteration (or Debug rendering) of a HashMap/HashSet is followed to an order-insensitive consumer or a reviewed table line; clock/env/pid/unseeded-RNG calls occur only under use_local_styles and the randomised id is reset whenever local styles are off; the single Pcg32 is seeded from config.seed, reseeded only by set_config and consumed only by random()/randint(); output is merged through a BTreeMap<OrderIndex,_>. This is the whole mechanism behind the property; cross-platform floating point is outside the statement.",
+        design_ref="DESIGN.md section 4 C06",
+        note="Trusted: rustc MIR; std iteration-order and sort semantics; the reviewed table policy/tables/hash_iteration.json (1 entry).",
+        technique="static analysis: MIR def-use following of hash-container iterators through adapter chains to their consumers (A8), deny-listed callee search with control-dependence on a config field, who-may-write/who-may-call (A10), type facts",
+    ),
+    "C18": dict(
+        text="Decides the mechanisms of template instantiation: the instance is cloned from the unevaluated snapshot (get_original_element), snapshots are taken once per id and every tag is registered raw before it is evaluated, the evaluated template reaches the instance only through content_bbox, reuse bindings are a scope popped on every exit, id/style/class transfer is wired as stated, <specs> output/bbox are gated on !in_specs, SpecsElement returns nothing and in_specs is reset on every exit. Equality with the hand-inlined document is not decided.",
+        design_ref="DESIGN.md section 4 C18",
+        note="Trusted: rustc MIR; HashMap::insert return value semantics.",
+        technique="static analysis: MIR value-origin slices, typestate pairing (scope, in_specs flag), control dependence, who-may-write",
+    ),
     "C17": dict(
         text="Decides: every read of loop_limit/var_limit/depth_limit is an exact `counter > limit` test whose counter provably means completed passes / stored length / depth after increment and whose true edge returns the matching error; inc_depth/dec_depth are paired on every exit (depth = nesting, not length); no limit error can be queued for retry or swallowed anywhere; <config> and the CLI wire the three limits 1:1.",
         design_ref="DESIGN.md section 4 C17",
@@ -31,7 +43,6 @@ NOT_APPLICABLE = {
         "C03": "planned: bypass dominance, escape balance; infoset equality itself is a two-execution comparison no static rule decides",
         "C04": "planned: pass-through filter; acceptance of the SVG grammars is a language-inclusion question, not a shape property",
         "C05": "planned: escape balance + sibling predicates; T(T(x))=T(x) itself compares two executions",
-        "C06": "planned: unordered-iteration and nondeterminism-source rules",
         "C07": "planned: global-state, single-core, failure-signalling and output-file ordering rules",
         "C08": "planned: guarded root inserts; the extent value is numeric",
         "C09": "selection-table wiring only would be decidable; placement arithmetic is numeric",
@@ -41,7 +52,6 @@ NOT_APPLICABLE = {
         "C13": "planned: attribute hygiene and route structure; distances are numeric",
         "C14": "planned: grammar skeleton and operator wiring; numeric results are not decided",
         "C16": "planned: loop/if control skeleton; equality with the unrolling compares two outputs",
-        "C18": "planned: template source, scope pairing, specs flag pairing",
         "C19": "planned: escape balance of text carriers; anchors are numeric",
         "C20": "planned: injection gating, guard/selector agreement, url/id closure",
     }.items()
